@@ -5,7 +5,7 @@ import fcntl, hashlib, json, os, re, shutil, subprocess, sys, time
 V = os.path.dirname(os.path.dirname(os.path.abspath(__file__)))   # /verif, or a snapshot of it (vp run)
 WORK = os.path.join(V, '.work')
 BIN = os.path.join(WORK, 'bin')
-REPO = '/repo'
+REPO = os.environ.get('VERIF_REPO', '/repo')   # the registered checks always use /repo itself; a background sweep may point at a snapshot
 GOENV = dict(os.environ, GOFLAGS='-mod=mod', GOPROXY='off', GOSUMDB='off', GOTOOLCHAIN='local')
 
 
